@@ -34,35 +34,15 @@ Definition explain (c : case) := (model_obs c, spec_obs c, tokenize (mode_of c) 
 
 (* ------------------------------------------------------------------------------------------------
    LARGE inputs (>= 64 KiB, >= 128 KiB; round 3, seeded change C11_C).  A big string literal is expensive to
-   read for coqc, so the text crosses as SEGMENTS: (escaped block, repetitions); both sides expand it
+   read for coqc, so the text crosses as SEGMENTS (Corr.BigText: Rep block repetitions); both sides expand it
    (Python: "".join(block * reps)); the observable crosses as a DIGEST of the returned tree's token
    stream: (number of tokens, two 63-bit polynomial checksums of the tokens joined by blanks).  The same
    digest is computed here on the model's and on the strict reader's result, and by the generator on the
    tree it rendered. *)
 From Coq Require Import ZArith NArith Uint63.
+From Verif Require Import Corr.BigText.
 Open Scope list_scope.
-
-Record seg := { s_block : string; s_reps : nat }.
-
-Fixpoint rep_app (b : text) (n : nat) (k : text) : text :=
-  match n with 0 => k | S n' => b ++ rep_app b n' k end.
-Definition expand (segs : list seg) : text :=
-  fold_right (fun s k => rep_app (unesc (s_block s)) (s_reps s) k) [] segs.
-
-Definition digest_t := (int * int * int)%type.
-Definition code (c : ascii) : int := of_Z (Z.of_N (N_of_ascii c)).
-Definition M1 : int := 1000003%uint63.
-Definition M2 : int := 6364136223846793005%uint63.
-Definition hstep (st : int * int) (c : ascii) : int * int :=
-  let '(h1, h2) := st in ((h1 * M1 + code c + 1)%uint63, (h2 * M2 + code c + 1)%uint63).
-Fixpoint hstr (st : int * int) (s : string) : int * int :=
-  match s with EmptyString => st | String c r => hstr (hstep st c) r end.
-Definition digest (ts : list string) : digest_t :=
-  let '(n, st) := fold_left (fun acc t => let '(n, st) := acc in ((n + 1)%uint63, hstep (hstr st t) " "%char))
-                            ts (0%uint63, (0%uint63, 0%uint63)) in
-  (n, fst st, snd st).
-Definition digest_eqb (a b : digest_t) : bool :=
-  let '(n, x, y) := a in let '(n', x', y') := b in ((n =? n') && (x =? x') && (y =? y'))%uint63.
+(* seg / expand / digest / digest_eqb: Corr/BigText.v (shared with Corr/C19.v) *)
 
 Record bigcase := { b_file : bool; b_segs : list seg; b_obs : obs digest_t; b_expect : option (obs digest_t) }.
 
